@@ -409,6 +409,10 @@ func (e *bEngine) binop(st *bState, op token.Token, x, y bVal, typ types.Type) b
 			case token.SUB:
 				return bScalar{Sub(a, b)}
 			case token.MUL:
+				// a product of two non-constant unsigned machine integers wraps (a running power kept in a uint64)
+				if k, ok := intKindOf(typ); ok && !k.signed && k.bits > 0 && !a.IsConst() && !b.IsConst() {
+					return bScalar{Mod(Mul(a, b), Const(pow2(k.bits)))}
+				}
 				return bScalar{Mul(a, b)}
 			case token.QUO:
 				if b.IsConst() && b.Val.Sign() > 0 {
